@@ -47,3 +47,24 @@ pub use self::protocol::HttpRequest;
 pub use self::protocol::HttpResponse;
 pub use self::protocol::S3Request;
 pub use self::protocol::S3Response;
+
+/// Verification hook: re-exports of items of private modules, compiled only with `--cfg s3s_verif`.
+#[cfg(s3s_verif)]
+#[doc(hidden)]
+pub mod __verif {
+    pub mod http {
+        pub use crate::http::*;
+    }
+    pub mod ops {
+        pub use crate::ops::*;
+    }
+    pub mod sig_v2 {
+        pub use crate::sig_v2::*;
+    }
+    pub mod sig_v4 {
+        pub use crate::sig_v4::*;
+    }
+    pub mod utils {
+        pub use crate::utils::crypto::*;
+    }
+}
